@@ -211,21 +211,34 @@ func c02Cmd(p string) (c ch.CommandID) {
 	return c
 }
 
-// c02Record: symbolic message content; tiny payload. SyncOnce feeds a hash-writing branch in the
-// digest, so it is Choice-concrete (thorough only).
-func c02Record(p string) ch.Record {
+// c02Record: symbolic message content of one of three shapes (lengths and the SyncOnce flag feed
+// hash-writing branches in the digest, so they are concrete per path): 0 = one payload byte;
+// 1 = empty payload, SyncOnce, one-byte sender; 2 = two payload bytes, one-byte client number.
+func c02Record(p string, shape int) ch.Record {
 	r := ch.Record{
 		ID: zzsym.U64(p + ".id"), Epoch: zzsym.U64(p + ".recepoch"), Setting: zzsym.U8(p + ".setting"),
 		ServerTimestampMS: zzsym.I64(p + ".ts"),
 	}
-	if zzsym.Thorough() {
-		r.FromUID = zzsym.String(p+".from", zzsym.Choice(p+".fromlen", 2))
-		r.SyncOnce = zzsym.Choice(p+".synconce", 2) == 1
-		r.Payload = zzsym.Bytes(p+".payload", zzsym.Choice(p+".payloadlen", 3))
-	} else {
+	switch shape {
+	case 1:
+		r.SyncOnce = true
+		r.FromUID = zzsym.String(p+".from", 1)
+	case 2:
+		r.Payload = zzsym.Bytes(p+".payload", 2)
+		r.ClientMsgNo = zzsym.String(p+".clientno", 1)
+	default:
 		r.Payload = zzsym.Bytes(p+".payload", 1)
 	}
 	return r
+}
+
+// c02Shape: quick = shape 0; thorough = any of the first n shapes, chosen once per record group
+// (all stored records share one shape, the records of a request share another).
+func c02Shape(p string, n int) int {
+	if !zzsym.Thorough() {
+		return 0
+	}
+	return zzsym.Choice(p+".shape", n)
 }
 
 func c02MaxProposals() int {
@@ -242,6 +255,7 @@ func c02Build(p string, min, max int, check bool) (*MemoryChannelStore, *c02Mode
 	s := &MemoryChannelStore{id: ch.ChannelID{ID: "c", Type: 2}}
 	m := &c02Model{}
 	n := min + zzsym.Choice(p+".proposals", max-min+1)
+	shape := c02Shape(p, 2)
 	for k := 0; k < n; k++ {
 		cnt := 1 + zzsym.Choice(p+".count", 2)
 		base := m.leo()
@@ -260,7 +274,7 @@ func c02Build(p string, min, max int, check bool) (*MemoryChannelStore, *c02Mode
 		}
 		recs := make([]ch.Record, cnt)
 		for i := range recs {
-			recs[i] = c02Record(p + ".rec")
+			recs[i] = c02Record(p+".rec", shape)
 			zzsym.Assume(recs[i].ID != 0)
 			zzsym.Assume(recs[i].Epoch == man.ChannelEpoch)
 			zzsym.Assume(recs[i].ServerTimestampMS > 0)
@@ -338,8 +352,9 @@ func c02NewProposal(p string, m *c02Model, base uint64, wellFormed bool) c02Prop
 		man.PreviousDigest = c02Garbage
 	}
 	recs := make([]ch.Record, cnt)
+	shape := c02Shape(p, 3)
 	for i := range recs {
-		recs[i] = c02Record(p + ".rec")
+		recs[i] = c02Record(p+".rec", shape)
 	}
 	garbageDigest := false
 	indexed := false
